@@ -27,6 +27,7 @@ PROPERTY SettingsOnlyBySetter
 PROPERTY FrameMatchesSettings
 PROPERTY ResizeAloneChangesNothing
 PROPERTY NoRerender
+PROPERTY EqualArgsChangeNothing
 PROPERTY ClosedIsTerminal
 PROPERTY LoopCountdown
 PROPERTY PendingSeekOnce
